@@ -1,26 +1,48 @@
-(* C18 proofs (round 2): when Synchronize() returns, every SavePreferences issued before it has
-   completed, for every schedule including spurious wake-ups; the saver never touches the stack
-   objects of a Synchronize that has returned. *)
+(* C18 proofs: Synchronize() with N callers.  When the Synchronize() of one caller (M) returns, every
+   SavePreferences queued before it - by M or by any other thread - has completed, for every
+   schedule including spurious wake-ups and saves / Synchronize calls of other threads at any
+   point; the saver never touches the stack objects of a Synchronize that has returned; the settings
+   file holds the last completed save, or the later one the saver is in the middle of. *)
 From OlaBase Require Import Bytes.
 From Coq Require Import Sorted.
 From C18 Require Import Model ProofsStr ProofsLoad ProofsCrash SyncModel.
 Local Open Scope N_scope.
 
-Ltac sc := cbn [prog mpc spc queue batch mtx done alive sdisk issued completed synclog hazard
+Ltac sc := cbn [prog mpc spc queue batch mtx done alive sdisk issued completed marked synclog hazard
                 set_prog set_mpc set_spc set_queue set_batch set_mtx set_done set_alive set_sdisk
-                set_issued set_completed set_synclog set_hazard] in *.
+                set_issued set_completed set_marked set_synclog set_hazard] in *.
 
 Definition Q (s : sst) : list item := batch s ++ queue s.
 Definition saves_of (l : list item) : list pmap :=
-  flat_map (fun i => match i with ISave m => [m] | IMarker => [] end) l.
+  flat_map (fun i => match i with ISave m => [m] | _ => [] end) l.
 Definition last_opt {A} (l : list A) : option A := match rev l with x :: _ => Some x | [] => None end.
+Definition nomarker (l : list item) : Prop := ~ In IMarker l.
 
 Lemma saves_of_app a b : saves_of (a ++ b) = saves_of a ++ saves_of b.
 Proof. apply flat_map_app. Qed.
-Lemma saves_of_map ps : saves_of (map ISave ps) = ps.
-Proof. induction ps as [|p ps IH]; cbn; [reflexivity|]. f_equal. exact IH. Qed.
 Lemma last_opt_snoc {A} (l : list A) x : last_opt (l ++ [x]) = Some x.
 Proof. unfold last_opt. rewrite rev_app_distr. reflexivity. Qed.
+Lemma nomarker_app a b : nomarker (a ++ b) <-> nomarker a /\ nomarker b.
+Proof.
+  unfold nomarker. split.
+  - intros H. split; intros Hi; apply H, in_or_app; auto.
+  - intros [Ha Hb] H. apply in_app_or in H as [H|H]; auto.
+Qed.
+Lemma nomarker_cons i l : nomarker (i :: l) <-> i <> IMarker /\ nomarker l.
+Proof. unfold nomarker. cbn [In]. split; [intros H; split; [intros E; apply H; left; exact E|intros E; apply H; right; exact E]|intros [H1 H2] [E|E]; auto]. Qed.
+Lemma nomarker_nil : nomarker [].
+Proof. intros []. Qed.
+
+(* the head of a list that contains M's marker exactly once *)
+Lemma marker_split_head i r pre post :
+  i :: r = pre ++ IMarker :: post -> nomarker pre ->
+  (i = IMarker /\ pre = [] /\ r = post) \/
+  (i <> IMarker /\ exists pre', pre = i :: pre' /\ r = pre' ++ IMarker :: post /\ nomarker pre').
+Proof.
+  intros E Hn. destruct pre as [|x pre']; cbn [app] in E; inversion E; subst.
+  - left. auto.
+  - right. apply nomarker_cons in Hn as [H1 H2]. split; [exact H1|]. exists pre'. auto.
+Qed.
 
 (* a complete save always runs through and leaves exactly the bytes of the store saved *)
 Lemma save_runs m d :
@@ -34,325 +56,457 @@ Proof.
   destruct H as [[Hk _]|[_ E]]; [lia|]. exact E.
 Qed.
 
-(* where the marker of the Synchronize in progress is, seen from the saver *)
-(* S is in its loop or inside a save (not inside CompleteSynchronization) *)
+(* calls of a save that leave the settings file alone: everything but the final rename *)
+Definition tmp_only (c : sys) : bool :=
+  match c with SOpenTrunc Tmp | SWrite Tmp _ | SClose Tmp => true | _ => false end.
+Lemma tmp_only_conf d c d' : tmp_only c = true -> fs_step d c = Some d' -> f_conf d' = f_conf d.
+Proof.
+  destruct c as [p|p bs|p|a b|p|p|p|a b]; try discriminate; destruct p; try discriminate; intros _; cbn [fs_step fs_get].
+  - intros E. inversion E. reflexivity.
+  - destruct (f_tmp d); [|discriminate]. intros E. inversion E. reflexivity.
+  - destruct (f_tmp d); [|discriminate]. intros E. inversion E. reflexivity.
+Qed.
+Lemma save_script_shape m :
+  exists r1, save_script m = r1 ++ [SRename Tmp Conf] /\ forallb tmp_only r1 = true.
+Proof.
+  exists ([SOpenTrunc Tmp] ++ map (SWrite Tmp) (map save_line m) ++ [SClose Tmp]). split.
+  - unfold save_script, script_of_chunks. rewrite <- !app_assoc. reflexivity.
+  - cbn [app forallb tmp_only andb]. rewrite forallb_app. cbn [forallb tmp_only andb].
+    rewrite andb_true_r. apply forallb_forall. intros x Hx. apply in_map_iff in Hx as (y & <- & _). reflexivity.
+Qed.
+
+(* ---------------------------------------------------------------- the invariant *)
 Definition srunb (x : spc_t) : bool := match x with SRun | SSaving _ _ => true | _ => false end.
-(* the save in progress, if any *)
-Definition cur (s : sst) : list pmap := match spc s with SSaving m _ => [m] | _ => [] end.
-(* the directory: while a save is in progress its remaining calls will run through and leave the
-   bytes of the store being saved; otherwise the file holds the last completed save *)
-Definition dfact (s : sst) : Prop :=
+(* what the settings file holds once the saves in `comp` have completed (c0: before any save) *)
+Definition lastconf (c0 : option str) (comp : list pmap) : option str :=
+  match last_opt comp with Some m => Some (save_bytes m) | None => c0 end.
+
+Definition dfact (c0 : option str) (s : sst) : Prop :=
   match spc s with
-  | SSaving m rest => exists df, fs_run fs_step rest (sdisk s) = Some df /\ f_conf df = Some (save_bytes m)
-  | _ => forall m, last_opt (completed s) = Some m -> f_conf (sdisk s) = Some (save_bytes m)
+  | SSaving m rest =>
+    (exists df, fs_run fs_step rest (sdisk s) = Some df /\ f_conf df = Some (save_bytes m)) /\
+    (f_conf (sdisk s) = lastconf c0 (completed s) \/ f_conf (sdisk s) = Some (save_bytes m)) /\
+    (rest = [] \/ exists r1, rest = r1 ++ [SRename Tmp Conf] /\ forallb tmp_only r1 = true)
+  | _ => f_conf (sdisk s) = lastconf c0 (completed s)
   end.
 
-Definition sstat (s : sst) : Prop :=
-  (srunb (spc s) = true /\ done s = false /\ mtx s <> Some TS /\ exists ps, Q s = map ISave ps ++ [IMarker]) \/
-  (spc s = SMLocked /\ done s = false /\ mtx s = Some TS /\ Q s = []) \/
-  (spc s = SMSet /\ done s = true /\ mtx s = Some TS /\ Q s = []) \/
-  (spc s = SMSignalled /\ done s = true /\ mtx s = Some TS /\ Q s = []) \/
-  (spc s = SRun /\ done s = true /\ mtx s <> Some TS /\ Q s = []).
+(* where M's marker is *)
+Definition mstat (s : sst) : Prop :=
+  (srunb (spc s) = true /\ done s = false /\ mtx s <> Some TS /\
+   exists pre post, Q s = pre ++ IMarker :: post /\ nomarker pre /\ nomarker post /\
+                    marked s = completed s ++ cur s ++ saves_of pre) \/
+  ((spc s = SMLocked /\ done s = false \/ spc s = SMSet /\ done s = true \/ spc s = SMSignalled /\ done s = true) /\
+   mtx s = Some TS /\ nomarker (Q s) /\ exists more, completed s = marked s ++ more) \/
+  (srunb (spc s) = true /\ done s = true /\ mtx s <> Some TS /\ nomarker (Q s) /\
+   exists more, completed s = marked s ++ more).
 
-Definition sync_ok (e : list pmap * list pmap * fs) : Prop :=
-  let '(iss, comp, d) := e in
-  comp = iss /\ forall m, last_opt iss = Some m -> f_conf d = Some (save_bytes m).
+(* one returned Synchronize: saves queued before it, saves completed, directory, save in progress *)
+Definition sync_ok (c0 : option str) (e : list pmap * list pmap * fs * list pmap) : Prop :=
+  let '(mkd, comp, d, cu) := e in
+  (exists more, comp = mkd ++ more) /\
+  (f_conf d = lastconf c0 comp \/ exists m, cu = [m] /\ f_conf d = Some (save_bytes m)).
 
-Definition inv (s : sst) : Prop :=
+Definition inv (c0 : option str) (s : sst) : Prop :=
   hazard s = false /\
   issued s = completed s ++ cur s ++ saves_of (Q s) /\
-  dfact s /\
-  Forall sync_ok (synclog s) /\
+  dfact c0 s /\
+  Forall (sync_ok c0) (synclog s) /\
   match mpc s with
-  | MIdle => alive s = false /\ srunb (spc s) = true /\ mtx s = None /\ exists ps, Q s = map ISave ps
-  | MLocked => alive s = true /\ srunb (spc s) = true /\ mtx s = Some TM /\ done s = false /\
-               exists ps, Q s = map ISave ps
-  | MPushed => alive s = true /\ mtx s = Some TM /\ sstat s
-  | MWaiting | MWoken => alive s = true /\ mtx s <> Some TM /\ sstat s
-  | MDoneSeen => alive s = true /\ mtx s = Some TM /\ done s = true /\ sstat s
+  | MIdle => alive s = false /\ srunb (spc s) = true /\ mtx s = None /\ nomarker (Q s)
+  | MLocked => alive s = true /\ srunb (spc s) = true /\ mtx s = Some TM /\ done s = false /\ nomarker (Q s)
+  | MPushed => alive s = true /\ mtx s = Some TM /\ mstat s
+  | MWaiting | MWoken => alive s = true /\ mtx s <> Some TM /\ mstat s
+  | MDoneSeen => alive s = true /\ mtx s = Some TM /\ done s = true /\ mstat s
   end.
 
-Lemma inv_ext s s' :
+Lemma inv_ext c0 s s' :
   hazard s' = hazard s -> issued s' = issued s -> completed s' = completed s -> sdisk s' = sdisk s ->
   synclog s' = synclog s -> mpc s' = mpc s -> spc s' = spc s -> mtx s' = mtx s -> done s' = done s ->
-  alive s' = alive s -> Q s' = Q s -> inv s -> inv s'.
+  alive s' = alive s -> marked s' = marked s -> Q s' = Q s -> inv c0 s -> inv c0 s'.
 Proof.
-  intros E1 E2 E3 E4 E5 E6 E7 E8 E9 E10 E11 H. unfold inv, sstat, dfact, cur in *.
-  rewrite E1, E2, E3, E4, E5, E6, E7, E8, E9, E10, E11. exact H.
+  intros E1 E2 E3 E4 E5 E6 E7 E8 E9 E10 E11 E12 H. unfold inv, mstat, dfact, cur in *.
+  rewrite E1, E2, E3, E4, E5, E6, E7, E8, E9, E10, E11, E12. exact H.
 Qed.
 
-Lemma inv_init p d : f_conf d = None \/ True -> inv (init p d).
+Lemma inv_init p d : inv (f_conf d) (init p d).
 Proof.
-  intros _. unfold inv, init, Q, dfact, cur. sc. repeat split; try reflexivity.
-  - intros m H. discriminate.
-  - constructor.
-  - exists []. reflexivity.
+  unfold inv, init, Q, dfact, cur, lastconf. sc. repeat split; try reflexivity; try constructor. exact nomarker_nil.
 Qed.
 
-Lemma spurious_inv s : inv s -> inv (spurious_step s).
+Lemma spurious_inv c0 s : inv c0 s -> inv c0 (spurious_step s).
 Proof.
   unfold spurious_step. intros H. destruct (mpc s) eqn:E; try exact H.
-  unfold inv, sstat, Q, dfact, cur in *. sc. rewrite E in H. exact H.
+  unfold inv, mstat, Q, dfact, cur in *. sc. rewrite E in H. exact H.
 Qed.
 
-Lemma main_inv s : inv s -> inv (main_step true s).
+(* a closure other than M's marker is appended to the executor's list *)
+Lemma push_inv c0 s x :
+  x <> IMarker -> inv c0 s ->
+  inv c0 (set_queue (queue s ++ [x]) (set_issued (issued s ++ saves_of [x]) s)).
+Proof.
+  intros Hx (Hz & Hi & Hd & Hl & Hm).
+  assert (nomarker [x]) as Nx by (apply nomarker_cons; split; [exact Hx|exact nomarker_nil]).
+  unfold inv, mstat, dfact, Q, cur in *. sc.
+  split; [exact Hz|]. split; [rewrite (app_assoc (batch s)), saves_of_app, Hi, <- !app_assoc; reflexivity|].
+  split; [exact Hd|]. split; [exact Hl|].
+  assert (nomarker (batch s ++ queue s) -> nomarker (batch s ++ queue s ++ [x])) as Nq.
+  { intros H. rewrite app_assoc. apply nomarker_app. auto. }
+  assert (mstat' : (srunb (spc s) = true /\ done s = false /\ mtx s <> Some TS /\
+            exists pre post, batch s ++ queue s = pre ++ IMarker :: post /\ nomarker pre /\ nomarker post /\
+              marked s = completed s ++ match spc s with SSaving m _ => [m] | _ => [] end ++ saves_of pre) \/
+          ((spc s = SMLocked /\ done s = false \/ spc s = SMSet /\ done s = true \/ spc s = SMSignalled /\ done s = true) /\
+            mtx s = Some TS /\ nomarker (batch s ++ queue s) /\ exists more, completed s = marked s ++ more) \/
+          (srunb (spc s) = true /\ done s = true /\ mtx s <> Some TS /\ nomarker (batch s ++ queue s) /\
+            exists more, completed s = marked s ++ more) ->
+          (srunb (spc s) = true /\ done s = false /\ mtx s <> Some TS /\
+            exists pre post, batch s ++ queue s ++ [x] = pre ++ IMarker :: post /\ nomarker pre /\ nomarker post /\
+              marked s = completed s ++ match spc s with SSaving m _ => [m] | _ => [] end ++ saves_of pre) \/
+          ((spc s = SMLocked /\ done s = false \/ spc s = SMSet /\ done s = true \/ spc s = SMSignalled /\ done s = true) /\
+            mtx s = Some TS /\ nomarker (batch s ++ queue s ++ [x]) /\ exists more, completed s = marked s ++ more) \/
+          (srunb (spc s) = true /\ done s = true /\ mtx s <> Some TS /\ nomarker (batch s ++ queue s ++ [x]) /\
+            exists more, completed s = marked s ++ more)).
+  { intros [H|[H|H]].
+    - left. destruct H as (A & B & C & pre & post & E & N1 & N2 & Mk). repeat split; try assumption.
+      exists pre, (post ++ [x]). rewrite app_assoc, E, <- app_assoc. cbn [app].
+      repeat split; try assumption. apply nomarker_app. auto.
+    - right; left. destruct H as (A & B & C & D). auto.
+    - right; right. destruct H as (A & B & C & D & F). auto 6. }
+  destruct (mpc s).
+  - destruct Hm as (A & B & C & D). auto.
+  - destruct Hm as (A & B & C & D & F). auto 6.
+  - destruct Hm as (A & B & C). auto.
+  - destruct Hm as (A & B & C). auto.
+  - destruct Hm as (A & B & C). auto.
+  - destruct Hm as (A & B & C & D). auto.
+Qed.
+
+Lemma env_save_inv c0 s m : inv c0 s -> inv c0 (env_save m s).
+Proof. intros H. exact (push_inv c0 s (ISave m) ltac:(discriminate) H). Qed.
+Lemma env_sync_inv c0 s : inv c0 s -> inv c0 (env_sync s).
+Proof.
+  intros H. pose proof (push_inv c0 s IForeign ltac:(discriminate) H) as P.
+  apply (inv_ext c0 (set_queue (queue s ++ [IForeign]) (set_issued (issued s ++ saves_of [IForeign]) s)));
+    try reflexivity; [|exact P]. sc. cbn. rewrite app_nil_r. reflexivity.
+Qed.
+
+Lemma mstat_after_pop_cases s :
+  mstat s -> mtx s = Some TM \/ mtx s <> Some TS -> True.
+Proof. auto. Qed.
+
+Lemma main_inv c0 s : inv c0 s -> inv c0 (main_step true s).
 Proof.
   intros Hinv. pose proof Hinv as (Hz & Hi & Hd & Hl & Hm). unfold main_step. destruct (mpc s) eqn:E.
   - (* MIdle *)
-    destruct Hm as (Ha & Hs & Hx & ps & Hq).
     destruct (prog s) as [|[m|] r] eqn:Ep.
     + exact Hinv.
-    + unfold inv, Q, cur in *. sc. rewrite E. repeat split; try assumption.
-      * rewrite (app_assoc (batch s)), saves_of_app, Hi. cbn [saves_of flat_map app].
-        rewrite <- !app_assoc. reflexivity.
-      * exists (ps ++ [m]). rewrite app_assoc, Hq, map_app. reflexivity.
-    + unfold inv, Q, cur in *. sc. repeat split; try assumption. exists ps; exact Hq.
-  - (* MLocked *)
-    destruct Hm as (Ha & Hs & Hx & Hdn & ps & Hq).
-    unfold inv, sstat, Q, cur in *. sc. repeat split; try assumption.
+    + apply (inv_ext c0 (env_save m s)); try reflexivity. apply env_save_inv, Hinv.
+    + destruct Hm as (Ha & Hs & Hx & Hq).
+      unfold inv, Q, dfact, cur in *. sc. repeat split; assumption.
+  - (* MLocked: the marker is queued *)
+    destruct Hm as (Ha & Hs & Hx & Hdn & Hq).
+    unfold inv, mstat, Q, dfact, cur in *. sc. repeat split; try assumption.
     + rewrite (app_assoc (batch s)), saves_of_app, Hi. cbn [saves_of flat_map app].
       rewrite app_nil_r. reflexivity.
-    + left. repeat split; try assumption; [congruence|]. exists ps. rewrite app_assoc, Hq. reflexivity.
+    + left. repeat split; try assumption; [congruence|].
+      exists (batch s ++ queue s), []. rewrite app_assoc. repeat split; try assumption; [exact nomarker_nil].
   - (* MPushed *)
     destruct Hm as (Ha & Hx & Hst). cbn [andb].
     destruct (done s) eqn:Ed.
-    + unfold inv, sstat, Q, cur in *. sc. rewrite Ed in *. repeat split; assumption.
-    + unfold inv, sstat, Q, cur in *. sc. rewrite Ed in *. repeat split; try assumption; try discriminate.
-      destruct Hst as [H|[H|[H|[H|H]]]]; destruct H as (H1 & H2 & H3 & H4); try congruence.
-      left. repeat split; try assumption. discriminate.
+    + unfold inv, mstat, Q, dfact, cur in *. sc. rewrite Ed in *. repeat split; assumption.
+    + unfold inv, mstat, Q, dfact, cur in *. sc. rewrite Ed in *. repeat split; try assumption; try discriminate.
+      destruct Hst as [H|[H|H]].
+      * left. destruct H as (H1 & H2 & H3 & H4). repeat split; try assumption. discriminate.
+      * destruct H as (_ & H2 & _). congruence.
+      * destruct H as (_ & H2 & _). discriminate.
   - (* MWaiting *)
     exact Hinv.
   - (* MWoken *)
     destruct Hm as (Ha & Hx & Hst). destruct (mtx s) as [t|] eqn:Et.
     + exact Hinv.
-    + unfold inv, sstat, Q, cur in *. sc. rewrite Et in *. repeat split; try assumption.
-      destruct Hst as [H|[H|[H|[H|H]]]]; destruct H as (H1 & H2 & H3 & H4); try congruence.
-      * left. repeat split; try assumption. discriminate.
-      * right; right; right; right. repeat split; try assumption. discriminate.
+    + unfold inv, mstat, Q, dfact, cur in *. sc. rewrite Et in *. repeat split; try assumption.
+      destruct Hst as [H|[H|H]].
+      * left. destruct H as (H1 & H2 & H3 & H4). repeat split; try assumption. discriminate.
+      * destruct H as (_ & H2 & _). discriminate.
+      * right; right. destruct H as (H1 & H2 & H3 & H4 & H5). repeat split; try assumption. discriminate.
   - (* MDoneSeen: Synchronize returns *)
     destruct Hm as (Ha & Hx & Hdn & Hst).
-    assert (spc s = SRun /\ Q s = []) as [Hs Hq].
-    { destruct Hst as [H|[H|[H|[H|H]]]]; destruct H as (H1 & H2 & H3 & H4); try congruence. auto. }
-    assert (issued s = completed s) as Hc.
-    { rewrite Hi, Hq. unfold cur. rewrite Hs. cbn. apply app_nil_r. }
-    pose proof Hd as Hd0. unfold dfact in Hd0. rewrite Hs in Hd0.
-    unfold inv, Q, cur in *. sc. repeat split; try assumption.
-    + apply Forall_app. split; [exact Hl|]. constructor; [|constructor].
-      split; [symmetry; exact Hc|]. intros m Hm. apply Hd0. rewrite <- Hc. exact Hm.
-    + rewrite Hs. reflexivity.
-    + exists []. exact Hq.
+    assert (srunb (spc s) = true /\ nomarker (Q s) /\ exists more, completed s = marked s ++ more) as (Hs & Hq & Hmore).
+    { destruct Hst as [H|[H|H]].
+      - destruct H as (_ & H2 & _). congruence.
+      - destruct H as (_ & H2 & _). congruence.
+      - destruct H as (H1 & _ & _ & H4 & H5). auto. }
+    assert (sync_ok c0 (marked s, completed s, sdisk s, cur s)) as Hok.
+    { split; [exact Hmore|]. unfold dfact in Hd. unfold cur. destruct (spc s) as [|m rest| | |]; try discriminate.
+      - left. exact Hd.
+      - destruct Hd as (_ & [Hd|Hd] & _); [left; exact Hd|right; exists m; auto]. }
+    unfold inv, Q, dfact, cur in *. sc. repeat split; try assumption.
+    apply Forall_app. split; [exact Hl|]. constructor; [exact Hok|constructor].
 Qed.
 
 Lemma Q_pop s i r : batch s = i :: r -> Q s = i :: (r ++ queue s).
 Proof. unfold Q. intros ->. reflexivity. Qed.
 
-(* what Hm says when S is not inside CompleteSynchronization *)
-Ltac sstat_cases H := destruct H as [H|[H|[H|[H|H]]]]; destruct H as (?H1 & ?H2 & ?H3 & ?H4).
+(* S takes a closure that is not M's marker off the list (a save is started, or a foreign marker is
+   dealt with): what changes for the position of M's marker *)
+Lemma mstat_pop s s' i r add :
+  batch s = i :: r -> i <> IMarker ->
+  Q s' = r ++ queue s -> srunb (spc s) = true -> srunb (spc s') = true ->
+  done s' = done s -> mtx s' = mtx s -> marked s' = marked s -> completed s' = completed s ->
+  cur s = [] -> cur s' = add -> saves_of [i] = add ->
+  mstat s -> mstat s'.
+Proof.
+  intros Eb Hi Eq Hs Hs' Ed Em Emk Ec Cu Cu' Ea H. pose proof (Q_pop s _ _ Eb) as Hq.
+  unfold mstat in *. rewrite Ed, Em, Emk, Ec, Eq, Cu'. rewrite Hq, Cu in H.
+  destruct H as [H|[H|H]].
+  - left. destruct H as (A & B & C & pre & post & E & N1 & N2 & Mk).
+    destruct (marker_split_head _ _ _ _ E N1) as [(F & _)|(_ & pre' & -> & -> & N1')]; [contradiction|].
+    repeat split; try assumption. exists pre', post. repeat split; try assumption.
+    rewrite Mk. change (i :: pre') with ([i] ++ pre'). rewrite saves_of_app, Ea. cbn [app]. reflexivity.
+  - destruct H as (A & _). destruct (spc s); try discriminate; destruct A as [[A _]|[[A _]|[A _]]]; discriminate.
+  - right; right. destruct H as (A & B & C & D & F). apply nomarker_cons in D as [_ D]. repeat split; assumption.
+Qed.
 
-Lemma saver_inv s : inv s -> inv (saver_step true s).
+Lemma saver_inv c0 s : inv c0 s -> inv c0 (saver_step true s).
 Proof.
   intros Hinv. pose proof Hinv as (Hz & Hi & Hd & Hl & Hm). unfold saver_step. destruct (spc s) eqn:Es.
   - (* SRun *)
-    destruct (batch s) as [|[m|] r] eqn:Eb.
+    destruct (batch s) as [|[m| |] r] eqn:Eb.
     + (* swap *)
-      apply (inv_ext s); try reflexivity; [|exact Hinv].
+      apply (inv_ext c0 s); try reflexivity; [|exact Hinv].
       unfold Q. sc. rewrite Eb. cbn [app]. apply app_nil_r.
     + (* a save is taken off the list and started *)
       pose proof (Q_pop s _ _ Eb) as Hq.
       destruct (save_runs m (sdisk s)) as (d' & R & Ec).
-      unfold inv, sstat, dfact, cur in *. unfold Q at 1 2 3 4 5 6 7 8. sc. fold (r ++ queue s).
-      rewrite Es in Hi. rewrite Hq in Hi, Hm. cbn [srunb] in *.
-      split; [exact Hz|]. split; [exact Hi|]. split; [exists d'; auto|]. split; [exact Hl|].
-      destruct (mpc s).
-      * destruct Hm as (A & B & C & ps & D). repeat split; try assumption.
-        destruct ps as [|p ps]; [discriminate|]. inversion D. exists ps. assumption.
-      * destruct Hm as (A & B & C & C' & ps & D). repeat split; try assumption.
-        destruct ps as [|p ps]; [discriminate|]. inversion D. exists ps. assumption.
-      * destruct Hm as (A & B & H). repeat split; try assumption.
-        sstat_cases H; try congruence; try discriminate.
-        destruct H4 as (ps & D). destruct ps as [|p ps]; [discriminate|]. inversion D.
-        left. repeat split; try assumption. exists ps. assumption.
-      * destruct Hm as (A & B & H). repeat split; try assumption.
-        sstat_cases H; try congruence; try discriminate.
-        destruct H4 as (ps & D). destruct ps as [|p ps]; [discriminate|]. inversion D.
-        left. repeat split; try assumption. exists ps. assumption.
-      * destruct Hm as (A & B & H). repeat split; try assumption.
-        sstat_cases H; try congruence; try discriminate.
-        destruct H4 as (ps & D). destruct ps as [|p ps]; [discriminate|]. inversion D.
-        left. repeat split; try assumption. exists ps. assumption.
-      * destruct Hm as (A & B & C & H). repeat split; try assumption.
-        sstat_cases H; try congruence; try discriminate.
-    + (* the marker: Lock *)
-      pose proof (Q_pop s _ _ Eb) as Hq. unfold sstat in Hm. rewrite Hq in Hm, Hi. cbn [srunb] in Hm.
-      assert (alive s = true /\ r ++ queue s = [] /\ done s = false /\ mpc s <> MIdle /\ mpc s <> MLocked /\ mpc s <> MDoneSeen)
-        as (Ha & Hr & Hdn & N1 & N2 & N3).
-      { destruct (mpc s).
-        - destruct Hm as (_ & _ & _ & ps & D). destruct ps; discriminate.
-        - destruct Hm as (_ & _ & _ & _ & ps & D). destruct ps; discriminate.
-        - destruct Hm as (A & B & H). sstat_cases H; try congruence; try discriminate.
-          destruct H4 as (ps & D). destruct ps as [|p ps]; [|discriminate]. inversion D.
-          repeat split; try assumption; discriminate.
-        - destruct Hm as (A & B & H). sstat_cases H; try congruence; try discriminate.
-          destruct H4 as (ps & D). destruct ps as [|p ps]; [|discriminate]. inversion D.
-          repeat split; try assumption; discriminate.
-        - destruct Hm as (A & B & H). sstat_cases H; try congruence; try discriminate.
-          destruct H4 as (ps & D). destruct ps as [|p ps]; [|discriminate]. inversion D.
-          repeat split; try assumption; discriminate.
-        - destruct Hm as (A & B & C & H). sstat_cases H; try congruence; try discriminate. }
+      destruct (save_script_shape m) as (r1 & Esh & Fsh).
+      set (s' := set_batch r (set_spc (SSaving m (save_script m)) s)).
+      assert (mstat s -> mstat s') as Kp.
+      { apply (mstat_pop s s' (ISave m) r [m]); try reflexivity; try assumption; try discriminate.
+        - rewrite Es. reflexivity.
+        - unfold cur. rewrite Es. reflexivity. }
+      unfold inv. split; [exact Hz|]. split; [|split; [|split; [exact Hl|]]].
+      * unfold cur in *. rewrite Es in Hi. subst s'. unfold Q in *. sc. rewrite Hi, Eb. reflexivity.
+      * unfold dfact in *. rewrite Es in Hd. subst s'. sc.
+        split; [exists d'; auto|]. split; [left; exact Hd|]. right. exists r1. auto.
+      * subst s'. sc. fold (set_batch r (set_spc (SSaving m (save_script m)) s)).
+        rewrite ?Es in Hm. cbn [srunb] in *.
+        assert (nomarker (Q s) -> nomarker (r ++ queue s)) as Nq by (rewrite Hq; intros H; apply nomarker_cons in H as [_ H]; exact H).
+        change (Q (set_batch r (set_spc (SSaving m (save_script m)) s))) with (r ++ queue s).
+        destruct (mpc s).
+        -- destruct Hm as (A & B & C & D). auto.
+        -- destruct Hm as (A & B & C & D & F). auto 6.
+        -- destruct Hm as (A & B & C). auto.
+        -- destruct Hm as (A & B & C). auto.
+        -- destruct Hm as (A & B & C). auto.
+        -- destruct Hm as (A & B & C & D). auto.
+    + (* M's marker: Lock *)
+      pose proof (Q_pop s _ _ Eb) as Hq.
+      assert (alive s = true /\ done s = false /\ (mpc s = MPushed \/ mpc s = MWaiting \/ mpc s = MWoken) /\
+              nomarker (r ++ queue s) /\ marked s = completed s) as (Ha & Hdn & Hmp & Nr & Mk).
+      { assert (mstat s -> done s = false /\ nomarker (r ++ queue s) /\ marked s = completed s) as K.
+        { unfold mstat. rewrite Hq. unfold cur. rewrite Es. intros [H|[H|H]].
+          - destruct H as (A & B & C & pre & post & E & N1 & N2 & Mk).
+            destruct (marker_split_head _ _ _ _ E N1) as [(_ & -> & ->)|(F & _)]; [|contradiction F; reflexivity].
+            cbn in Mk. rewrite app_nil_r in Mk. auto.
+          - destruct H as (_ & _ & D & _). apply nomarker_cons in D as [D _]. contradiction D; reflexivity.
+          - destruct H as (_ & _ & _ & D & _). apply nomarker_cons in D as [D _]. contradiction D; reflexivity. }
+        destruct (mpc s).
+        - destruct Hm as (_ & _ & _ & D). rewrite Hq in D. apply nomarker_cons in D as [D _]. contradiction D; reflexivity.
+        - destruct Hm as (_ & _ & _ & _ & D). rewrite Hq in D. apply nomarker_cons in D as [D _]. contradiction D; reflexivity.
+        - destruct Hm as (A & B & H). destruct (K H) as (K1 & K2 & K3). auto 8.
+        - destruct Hm as (A & B & H). destruct (K H) as (K1 & K2 & K3). auto 8.
+        - destruct Hm as (A & B & H). destruct (K H) as (K1 & K2 & K3). auto 8.
+        - destruct Hm as (A & B & C & H). destruct (K H) as (K1 & _). congruence. }
       rewrite Ha. destruct (mtx s) as [t|] eqn:Et.
-      * (* blocked *) exact Hinv.
-      * unfold inv, sstat, dfact, cur in *. unfold Q at 1 2 3 4 5 6 7 8. sc. fold (r ++ queue s).
-        rewrite Hr in *. rewrite Es in Hi, Hd.
+      * exact Hinv.
+      * unfold inv, mstat, dfact, cur in *. unfold Q in *. sc. rewrite Es in Hi, Hd. rewrite Eb in Hi. cbn [app saves_of flat_map] in Hi.
         split; [exact Hz|]. split; [exact Hi|]. split; [exact Hd|]. split; [exact Hl|].
-        destruct (mpc s); try congruence.
-        -- destruct Hm as (A & B & _). congruence.
-        -- repeat split; try assumption; try discriminate. right; left. auto.
-        -- repeat split; try assumption; try discriminate. right; left. auto.
+        assert (((SMLocked = SMLocked /\ done s = false \/ SMLocked = SMSet /\ done s = true \/ SMLocked = SMSignalled /\ done s = true) /\
+                 Some TS = Some TS /\ nomarker (r ++ queue s) /\ exists more, completed s = marked s ++ more)) as K2.
+        { split; [left; auto|]. split; [reflexivity|]. split; [exact Nr|]. exists []. rewrite Mk, app_nil_r. reflexivity. }
+        destruct Hmp as [Hp|[Hp|Hp]]; rewrite Hp in *.
+        -- destruct Hm as (_ & B & _). discriminate.
+        -- repeat split; try assumption; try discriminate. right; left. exact K2.
+        -- repeat split; try assumption; try discriminate. right; left. exact K2.
+    + (* another caller's marker *)
+      pose proof (Q_pop s _ _ Eb) as Hq.
+      set (s' := set_batch r s).
+      assert (mstat s -> mstat s') as Kp.
+      { apply (mstat_pop s s' IForeign r []); try reflexivity; try assumption; try discriminate.
+        - rewrite Es. reflexivity.
+        - subst s'. sc. rewrite Es. reflexivity.
+        - unfold cur. rewrite Es. reflexivity.
+        - subst s'. unfold cur. sc. rewrite Es. reflexivity. }
+      unfold inv. split; [exact Hz|]. split; [|split; [|split; [exact Hl|]]].
+      * unfold cur in *. subst s'. unfold Q in *. sc. rewrite Hi, Eb. reflexivity.
+      * unfold dfact in *. subst s'. sc. exact Hd.
+      * subst s'. sc. fold (set_batch r s).
+        assert (nomarker (Q s) -> nomarker (r ++ queue s)) as Nq by (rewrite Hq; intros H; apply nomarker_cons in H as [_ H]; exact H).
+        change (Q (set_batch r s)) with (r ++ queue s). rewrite Es. cbn [srunb].
+        destruct (mpc s).
+        -- destruct Hm as (A & B & C & D). auto.
+        -- destruct Hm as (A & B & C & D & F). auto 6.
+        -- destruct Hm as (A & B & C). auto.
+        -- destruct Hm as (A & B & C). auto.
+        -- destruct Hm as (A & B & C). auto.
+        -- destruct Hm as (A & B & C & D). auto.
   - (* SSaving: one system call of the save, or its return *)
-    assert (match mpc s with
-            | MIdle => alive s = false /\ mtx s = None /\ exists ps, Q s = map ISave ps
-            | MLocked => alive s = true /\ mtx s = Some TM /\ done s = false /\ exists ps, Q s = map ISave ps
-            | MPushed => alive s = true /\ mtx s = Some TM /\ done s = false /\ mtx s <> Some TS /\ exists ps, Q s = map ISave ps ++ [IMarker]
-            | MWaiting | MWoken => alive s = true /\ mtx s <> Some TM /\ done s = false /\ mtx s <> Some TS /\ exists ps, Q s = map ISave ps ++ [IMarker]
-            | MDoneSeen => False
-            end) as Hm'.
-    { unfold sstat in Hm. destruct (mpc s).
-      - destruct Hm as (A & B & C & D). auto.
-      - destruct Hm as (A & B & C & D & F). auto.
-      - destruct Hm as (A & B & H). sstat_cases H; try congruence. auto 6.
-      - destruct Hm as (A & B & H). sstat_cases H; try congruence. auto 6.
-      - destruct Hm as (A & B & H). sstat_cases H; try congruence. auto 6.
-      - destruct Hm as (A & B & C & H). sstat_cases H; congruence. }
-    assert (forall s', mpc s' = mpc s -> alive s' = alive s -> mtx s' = mtx s -> done s' = done s -> Q s' = Q s ->
-            srunb (spc s') = true ->
-            match mpc s' with
-            | MIdle => alive s' = false /\ srunb (spc s') = true /\ mtx s' = None /\ exists ps, Q s' = map ISave ps
-            | MLocked => alive s' = true /\ srunb (spc s') = true /\ mtx s' = Some TM /\ done s' = false /\
-                         exists ps, Q s' = map ISave ps
-            | MPushed => alive s' = true /\ mtx s' = Some TM /\ sstat s'
-            | MWaiting | MWoken => alive s' = true /\ mtx s' <> Some TM /\ sstat s'
-            | MDoneSeen => alive s' = true /\ mtx s' = Some TM /\ done s' = true /\ sstat s'
-            end) as K.
-    { intros s' E1 E2 E3 E4 E5 E6. unfold sstat. rewrite E1, E2, E3, E4, E5, E6.
-      destruct (mpc s).
-      - destruct Hm' as (A & B & C). auto.
-      - destruct Hm' as (A & B & C & D). auto.
-      - destruct Hm' as (A & B & C & D & F). repeat split; try assumption. left. auto.
-      - destruct Hm' as (A & B & C & D & F). repeat split; try assumption. left. auto.
-      - destruct Hm' as (A & B & C & D & F). repeat split; try assumption. left. auto.
-      - contradiction. }
-    unfold dfact in Hd. rewrite Es in Hd. destruct Hd as (df & R & Ef).
+    unfold dfact in Hd. rewrite Es in Hd. destruct Hd as ((df & R & Ef) & Hc & Hsh).
     unfold cur in Hi. rewrite Es in Hi.
     destruct rest as [|c rest'].
     + (* the save returns *)
       cbn [fs_run] in R. inversion R; subst df.
+      set (s' := set_spc SRun (set_completed (completed s ++ [m]) s)).
+      assert (mstat s -> mstat s') as Kp.
+      { unfold mstat, cur, Q. subst s'. sc. rewrite Es. cbn [srunb]. intros [H|[H|H]].
+        - left. destruct H as (A & B & C & pre & post & E & N1 & N2 & Mk). repeat split; try assumption.
+          exists pre, post. repeat split; try assumption. rewrite Mk, <- !app_assoc. reflexivity.
+        - destruct H as ([[A _]|[[A _]|[A _]]] & _); discriminate.
+        - right; right. destruct H as (A & B & C & D & more & F). repeat split; try assumption.
+          exists (more ++ [m]). rewrite F, app_assoc. reflexivity. }
       unfold inv. split; [exact Hz|]. split; [|split; [|split; [exact Hl|]]].
-      * unfold cur, Q in *. sc. rewrite Hi, <- !app_assoc. reflexivity.
-      * unfold dfact. sc. intros m0 H. rewrite last_opt_snoc in H. congruence.
-      * apply K; reflexivity.
+      * subst s'. unfold cur, Q in *. sc. rewrite Hi, <- !app_assoc. reflexivity.
+      * subst s'. unfold dfact, lastconf. sc. rewrite last_opt_snoc. exact Ef.
+      * subst s'. sc. fold (set_spc SRun (set_completed (completed s ++ [m]) s)).
+        change (Q (set_spc SRun (set_completed (completed s ++ [m]) s))) with (Q s).
+        rewrite ?Es in Hm. cbn [srunb] in *.
+        destruct (mpc s).
+        -- destruct Hm as (A & B & C & D). auto.
+        -- destruct Hm as (A & B & C & D & F). auto 6.
+        -- destruct Hm as (A & B & C). auto.
+        -- destruct Hm as (A & B & C). auto.
+        -- destruct Hm as (A & B & C). auto.
+        -- destruct Hm as (A & B & C & D). auto.
     + cbn [fs_run] in R. destruct (fs_step (sdisk s) c) as [d1|] eqn:E1; [|discriminate].
+      set (s' := set_spc (SSaving m rest') (set_sdisk d1 s)).
+      assert (mstat s -> mstat s') as Kp.
+      { unfold mstat, cur, Q. subst s'. sc. rewrite Es. cbn [srunb]. intros [H|[H|H]];
+          [left; exact H|destruct H as ([[A _]|[[A _]|[A _]]] & _); discriminate|right; right; exact H]. }
       unfold inv. split; [exact Hz|]. split; [|split; [|split; [exact Hl|]]].
-      * unfold cur, Q in *. sc. exact Hi.
-      * unfold dfact. sc. exists df. auto.
-      * apply K; reflexivity.
+      * subst s'. unfold cur, Q in *. sc. exact Hi.
+      * subst s'. unfold dfact. sc. split; [exists df; auto|].
+        destruct Hsh as [Hsh|(r1 & Er & Fr)]; [discriminate|].
+        destruct r1 as [|x r1'].
+        -- (* the rename: the file becomes the new one, nothing is left to do *)
+           cbn [app] in Er. inversion Er; subst c rest'. cbn [fs_run] in R. inversion R; subst d1.
+           split; [right; exact Ef|left; reflexivity].
+        -- cbn [app] in Er. inversion Er; subst c rest'. cbn [forallb] in Fr. apply andb_prop in Fr as [Fx Fr].
+           rewrite (tmp_only_conf _ _ _ Fx E1). split; [exact Hc|]. right. exists r1'. auto.
+      * subst s'. sc. fold (set_spc (SSaving m rest') (set_sdisk d1 s)).
+        change (Q (set_spc (SSaving m rest') (set_sdisk d1 s))) with (Q s).
+        rewrite ?Es in Hm. cbn [srunb] in *.
+        destruct (mpc s).
+        -- destruct Hm as (A & B & C & D). auto.
+        -- destruct Hm as (A & B & C & D & F). auto 6.
+        -- destruct Hm as (A & B & C). auto.
+        -- destruct Hm as (A & B & C). auto.
+        -- destruct Hm as (A & B & C). auto.
+        -- destruct Hm as (A & B & C & D). auto.
   - (* SMLocked: set the flag *)
-    unfold sstat in Hm. rewrite ?Es in Hm. cbn [srunb] in Hm.
-    assert (alive s = true /\ mtx s = Some TS /\ Q s = [] /\ mpc s <> MIdle /\ mpc s <> MLocked) as (Ha & Hx & Hq & N1 & N2).
-    { destruct (mpc s).
-      - destruct Hm as (_ & B & _). congruence.
-      - destruct Hm as (_ & B & _). congruence.
-      - destruct Hm as (A & B & H). sstat_cases H; try congruence.
-      - destruct Hm as (A & B & H). sstat_cases H; try congruence.
-        repeat split; try assumption; discriminate.
-      - destruct Hm as (A & B & H). sstat_cases H; try congruence.
-        repeat split; try assumption; discriminate.
-      - destruct Hm as (A & B & C & H). sstat_cases H; congruence. }
-    rewrite Ha. unfold inv, sstat, Q, dfact, cur in *. sc. rewrite Es in Hi, Hd.
+    assert (alive s = true /\ (mpc s = MWaiting \/ mpc s = MWoken) /\ mtx s = Some TS /\ nomarker (Q s) /\
+            exists more, completed s = marked s ++ more) as (Ha & Hw & Hx & Hq & Hmore).
+    { assert (mstat s -> mtx s = Some TS /\ nomarker (Q s) /\ exists more, completed s = marked s ++ more) as K.
+      { unfold mstat. rewrite Es. cbn [srunb]. intros [H|[H|H]].
+        - destruct H as (A & _). discriminate.
+        - destruct H as (_ & B & C & D). auto.
+        - destruct H as (A & _). discriminate. }
+      rewrite ?Es in Hm. cbn [srunb] in Hm. destruct (mpc s).
+      - destruct Hm as (_ & B & _). discriminate.
+      - destruct Hm as (_ & B & _). discriminate.
+      - destruct Hm as (A & B & H). destruct (K H) as (K1 & _). congruence.
+      - destruct Hm as (A & B & H). destruct (K H) as (K1 & K2 & K3). auto 8.
+      - destruct Hm as (A & B & H). destruct (K H) as (K1 & K2 & K3). auto 8.
+      - destruct Hm as (A & B & C & H). destruct (K H) as (K1 & _). congruence. }
+    rewrite Ha. unfold inv, mstat, dfact, cur in *. unfold Q in *. sc. rewrite Es in Hi, Hd.
     split; [exact Hz|]. split; [exact Hi|]. split; [exact Hd|]. split; [exact Hl|].
-    destruct (mpc s); try congruence.
-    + destruct Hm as (A & B & _). congruence.
-    + repeat split; try assumption; try congruence. right; right; left. auto.
-    + repeat split; try assumption; try congruence. right; right; left. auto.
-    + destruct Hm as (A & B & _). congruence.
+    destruct Hw as [Hw|Hw]; rewrite Hw in *; destruct Hm as (A & B & _);
+      (repeat split; try assumption); right; left; (split; [right; left; auto|auto]).
   - (* SMSet: signal *)
-    unfold sstat in Hm. rewrite ?Es in Hm. cbn [srunb] in Hm.
-    assert (alive s = true /\ mtx s = Some TS /\ Q s = [] /\ done s = true /\ (mpc s = MWaiting \/ mpc s = MWoken)) as (Ha & Hx & Hq & Hdn & Hw).
-    { destruct (mpc s).
-      - destruct Hm as (_ & B & _). congruence.
-      - destruct Hm as (_ & B & _). congruence.
-      - destruct Hm as (A & B & H). sstat_cases H; try congruence.
-      - destruct Hm as (A & B & H). sstat_cases H; try congruence. auto 6.
-      - destruct Hm as (A & B & H). sstat_cases H; try congruence. auto 6.
-      - destruct Hm as (A & B & C & H). sstat_cases H; try congruence. }
-    rewrite Ha.
-    assert (forall s', mpc s' = MWoken -> alive s' = true -> mtx s' = Some TS -> Q s' = [] -> done s' = true ->
-            spc s' = SMSignalled -> hazard s' = false -> issued s' = completed s' ++ cur s' ++ saves_of (Q s') ->
-            dfact s' -> Forall sync_ok (synclog s') -> inv s') as K.
-    { intros s' P1 P2 P3 P4 P5 P6 P7 P8 P9 P10. unfold inv. rewrite P1.
-      repeat split; try assumption; try congruence. unfold sstat. right; right; right; left. auto. }
-    unfold dfact, cur in Hd, Hi. rewrite Es in Hd, Hi.
-    destruct Hw as [Hw|Hw]; rewrite Hw; apply K; unfold Q, dfact, cur in *; sc; try assumption; reflexivity.
+    assert (alive s = true /\ (mpc s = MWaiting \/ mpc s = MWoken) /\ mtx s = Some TS /\ done s = true /\ nomarker (Q s) /\
+            exists more, completed s = marked s ++ more) as (Ha & Hw & Hx & Hdn & Hq & Hmore).
+    { assert (mstat s -> mtx s = Some TS /\ done s = true /\ nomarker (Q s) /\ exists more, completed s = marked s ++ more) as K.
+      { unfold mstat. rewrite Es. cbn [srunb]. intros [H|[H|H]].
+        - destruct H as (A & _). discriminate.
+        - destruct H as ([[A _]|[[_ A]|[A _]]] & B & C & D); try discriminate. auto.
+        - destruct H as (A & _). discriminate. }
+      rewrite ?Es in Hm. cbn [srunb] in Hm. destruct (mpc s).
+      - destruct Hm as (_ & B & _). discriminate.
+      - destruct Hm as (_ & B & _). discriminate.
+      - destruct Hm as (A & B & H). destruct (K H) as (K1 & _). congruence.
+      - destruct Hm as (A & B & H). destruct (K H) as (K1 & K2 & K3 & K4). auto 8.
+      - destruct Hm as (A & B & H). destruct (K H) as (K1 & K2 & K3 & K4). auto 8.
+      - destruct Hm as (A & B & C & H). destruct (K H) as (K1 & _). congruence. }
+    rewrite Ha. unfold inv, mstat, dfact, cur in *. unfold Q in *. sc. rewrite Es in Hi, Hd.
+    assert (((SMSignalled = SMLocked /\ done s = false \/ SMSignalled = SMSet /\ done s = true \/ SMSignalled = SMSignalled /\ done s = true) /\
+             mtx s = Some TS /\ nomarker (batch s ++ queue s) /\ exists more, completed s = marked s ++ more)) as K2
+      by (split; [right; right; auto|auto]).
+    destruct Hw as [Hw|Hw]; rewrite Hw in *; destruct Hm as (A & B & _); sc; rewrite ?Hw;
+      (split; [exact Hz|split; [exact Hi|split; [exact Hd|split; [exact Hl|]]]]);
+      (split; [exact A|split; [exact B|right; left; exact K2]]).
   - (* SMSignalled: unlock *)
-    unfold sstat in Hm. rewrite ?Es in Hm. cbn [srunb] in Hm.
-    assert (alive s = true /\ mtx s = Some TS /\ Q s = [] /\ done s = true /\ (mpc s = MWaiting \/ mpc s = MWoken)) as (Ha & Hx & Hq & Hdn & Hw).
-    { destruct (mpc s).
-      - destruct Hm as (_ & B & _). congruence.
-      - destruct Hm as (_ & B & _). congruence.
-      - destruct Hm as (A & B & H). sstat_cases H; try congruence.
-      - destruct Hm as (A & B & H). sstat_cases H; try congruence. auto 6.
-      - destruct Hm as (A & B & H). sstat_cases H; try congruence. auto 6.
-      - destruct Hm as (A & B & C & H). sstat_cases H; try congruence. }
-    rewrite Ha. unfold inv, sstat, Q, dfact, cur in *. sc. rewrite Es in Hi, Hd.
+    assert (alive s = true /\ (mpc s = MWaiting \/ mpc s = MWoken) /\ done s = true /\ nomarker (Q s) /\
+            exists more, completed s = marked s ++ more) as (Ha & Hw & Hdn & Hq & Hmore).
+    { assert (mstat s -> mtx s = Some TS /\ done s = true /\ nomarker (Q s) /\ exists more, completed s = marked s ++ more) as K.
+      { unfold mstat. rewrite Es. cbn [srunb]. intros [H|[H|H]].
+        - destruct H as (A & _). discriminate.
+        - destruct H as ([[A _]|[[A _]|[_ A]]] & B & C & D); try discriminate. auto.
+        - destruct H as (A & _). discriminate. }
+      rewrite ?Es in Hm. cbn [srunb] in Hm. destruct (mpc s).
+      - destruct Hm as (_ & B & _). discriminate.
+      - destruct Hm as (_ & B & _). discriminate.
+      - destruct Hm as (A & B & H). destruct (K H) as (K1 & _). congruence.
+      - destruct Hm as (A & B & H). destruct (K H) as (K1 & K2 & K3 & K4). auto 8.
+      - destruct Hm as (A & B & H). destruct (K H) as (K1 & K2 & K3 & K4). auto 8.
+      - destruct Hm as (A & B & C & H). destruct (K H) as (K1 & _). congruence. }
+    rewrite Ha. unfold inv, mstat, dfact, cur in *. unfold Q in *. sc. rewrite Es in Hi, Hd.
     split; [exact Hz|]. split; [exact Hi|]. split; [exact Hd|]. split; [exact Hl|].
-    destruct Hw as [Hw|Hw]; rewrite Hw; (repeat split; try assumption; try discriminate);
-      right; right; right; right; repeat split; try assumption; discriminate.
+    destruct Hw as [Hw|Hw]; rewrite Hw in *; destruct Hm as (A & B & _);
+      (repeat split; try assumption; try discriminate); right; right;
+      (repeat split; try assumption; try reflexivity; try discriminate).
 Qed.
 
-Lemma step_inv s c : inv s -> inv (step true s c).
+Lemma step_inv c0 s c : inv c0 s -> inv c0 (step true s c).
 Proof.
   intros H. unfold step. destruct H as (Hz & H'). rewrite Hz.
-  assert (inv s) as H by (split; assumption).
-  destruct c; [apply main_inv|apply saver_inv|apply spurious_inv]; exact H.
+  assert (inv c0 s) as H by (split; assumption).
+  destruct c; [apply main_inv|apply saver_inv|apply spurious_inv|apply env_save_inv|apply env_sync_inv]; exact H.
 Qed.
 
-Lemma run_inv sched : forall s, inv s -> inv (run true sched s).
+Lemma run_inv c0 sched : forall s, inv c0 s -> inv c0 (run true sched s).
 Proof.
   unfold run. induction sched as [|c r IH]; intros s H; cbn [fold_left]; [exact H|].
   apply IH, step_inv, H.
 Qed.
 
 (* ---------------------------------------------------------------- the theorem *)
-(* For every program of SavePreferences / Synchronize calls, every initial directory and EVERY
-   schedule (any interleaving of the two threads, any number of spurious wake-ups anywhere):
-   the saver never uses the stack objects of a Synchronize that has returned, and at each return of
-   Synchronize the saves completed are exactly the saves issued (all of them, in order), and the
-   settings file holds exactly the bytes of the most recent one. *)
 Lemma sync_safe p d sched :
   let s := run true sched (init p d) in
-  hazard s = false /\
-  Forall (fun e => let '(iss, comp, dk) := e in
-                   comp = iss /\ forall m, last_opt iss = Some m -> f_conf dk = Some (save_bytes m))
-         (synclog s).
+  hazard s = false /\ Forall (sync_ok (f_conf d)) (synclog s).
 Proof.
-  intros s. destruct (run_inv sched (init p d) (inv_init p d (or_intror I))) as (Hz & _ & _ & Hl & _).
-  split; [exact Hz|]. exact Hl.
+  intros s. destruct (run_inv (f_conf d) sched (init p d) (inv_init p d)) as (Hz & _ & _ & Hl & _).
+  split; [exact Hz|exact Hl].
 Qed.
 
-(* and such a file loads as that store when the store meets the side conditions *)
+(* the file part spelled out: with no save in progress at the return, the file holds byte for byte
+   the last completed save (so it loads as that store when admissible); with a later save of another
+   thread in progress, it holds that or already the later one *)
 Lemma sync_safe_loads p d sched :
   let s := run true sched (init p d) in
   hazard s = false /\
-  Forall (fun e => let '(iss, comp, dk) := e in
-                   comp = iss /\
-                   forall m, last_opt iss = Some m ->
-                     f_conf dk = Some (save_bytes m) /\ (sorted m -> map_ok m -> restart dk = m))
+  Forall (fun e => let '(queued_before, comp, dk, in_progress) := e in
+            (exists more, comp = queued_before ++ more) /\
+            (in_progress = [] -> forall m, last_opt comp = Some m ->
+               f_conf dk = Some (save_bytes m) /\ (sorted m -> map_ok m -> restart dk = m)) /\
+            (forall m', in_progress = [m'] ->
+               f_conf dk = lastconf (f_conf d) comp \/ f_conf dk = Some (save_bytes m')))
          (synclog s).
 Proof.
   intros s. destruct (sync_safe p d sched) as [Hz Hl]. split; [exact Hz|].
-  fold s in Hl. rewrite Forall_forall in *. intros [[iss comp] dk] Hin.
-  specialize (Hl _ Hin). cbn in Hl. destruct Hl as [Hc Hf]. split; [exact Hc|].
-  intros m Hm. specialize (Hf m Hm). split; [exact Hf|].
-  intros Hs Hok. unfold restart, load_into. rewrite Hf. apply load_save; assumption.
+  fold s in Hl. rewrite Forall_forall in *. intros [[[qb comp] dk] cu] Hin.
+  specialize (Hl _ Hin). cbn in Hl. destruct Hl as [Hc Hf]. split; [exact Hc|]. split.
+  - intros -> m Hm. destruct Hf as [Hf|(m' & E & _)]; [|discriminate].
+    unfold lastconf in Hf. rewrite Hm in Hf. split; [exact Hf|].
+    intros Hs Hok. unfold restart, load_into. rewrite Hf. apply load_save; assumption.
+  - intros m' ->. destruct Hf as [Hf|(m'' & E & Hf)]; [left; exact Hf|]. inversion E; subst. right; exact Hf.
 Qed.
 
 (* Before fix 04 (one pthread_cond_wait, no predicate; mutex and condition variable used by the
@@ -364,28 +518,22 @@ Lemma old_sync_returns_early :
   let m := [([107], [118])] in
   let d0 := {| f_conf := None; f_tmp := None |} in
   let s := run false old_sync_schedule (init [MSave m; MSync] d0) in
-  synclog s = [([m], [], d0)] /\ hazard s = false /\
+  synclog s = [([m], [], d0, [])] /\ hazard s = false /\
   hazard (run false (repeat CSaver 8) s) = true.
 Proof. vm_compute. repeat split. Qed.
-(* the same schedule with the fix: Synchronize is still waiting *)
 Lemma fixed_sync_same_schedule :
   let m := [([107], [118])] in
   let d0 := {| f_conf := None; f_tmp := None |} in
   let s := run true old_sync_schedule (init [MSave m; MSync] d0) in
   synclog s = [] /\ mpc s = MWaiting.
 Proof. vm_compute. split; reflexivity. Qed.
-(* and a schedule on which the fixed code completes: the machine is not vacuous *)
 Lemma fixed_sync_completes :
   let m := [([107], [118])] in
   let d0 := {| f_conf := None; f_tmp := None |} in
-  let s := run true (old_sync_schedule ++ repeat CSaver 11 ++ repeat CMain 4)
-               (init [MSave m; MSync] d0) in
-  exists dk, synclog s = [([m], [m], dk)] /\ f_conf dk = Some (save_bytes m) /\ mpc s = MIdle /\ prog s = [].
+  let s := run true (old_sync_schedule ++ repeat CSaver 11 ++ repeat CMain 4) (init [MSave m; MSync] d0) in
+  exists dk, synclog s = [([m], [m], dk, [])] /\ f_conf dk = Some (save_bytes m) /\ mpc s = MIdle /\ prog s = [].
 Proof. vm_compute. eexists. repeat split. Qed.
 
-(* the schedule space contains overlaps: here the second SavePreferences is issued while the saver
-   is between the open and the first write of the first save; Synchronize still returns with both
-   saves complete and the file holding the second *)
 Lemma overlap_schedule_example :
   let a := [([107], [49])] in
   let b := [([107], [50])] in
@@ -393,5 +541,22 @@ Lemma overlap_schedule_example :
   let s1 := run true [CMain; CSaver; CSaver; CSaver; CMain] (init [MSave a; MSave b; MSync] d0) in
   let s2 := run true (repeat CMain 3 ++ repeat CSaver 16 ++ repeat CMain 3) s1 in
   (exists rest, spc s1 = SSaving a rest /\ length rest = 3%nat /\ issued s1 = [a; b] /\ completed s1 = []) /\
-  exists dk, synclog s2 = [([a; b], [a; b], dk)] /\ f_conf dk = Some (save_bytes b) /\ prog s2 = [].
+  exists dk, synclog s2 = [([a; b], [a; b], dk, [])] /\ f_conf dk = Some (save_bytes b) /\ prog s2 = [].
 Proof. vm_compute. split; [eexists; repeat split|eexists; repeat split]. Qed.
+
+(* other callers: a foreign Synchronize queued before M's marker, a foreign save queued after it.
+   M's Synchronize returns when everything queued before its marker is done ([a]); the later save b
+   is then still pending, or - a few saver steps on - in progress with the file already replaced. *)
+Lemma other_callers_example :
+  let a := [([107], [49])] in
+  let b := [([107], [50])] in
+  let d0 := {| f_conf := None; f_tmp := None |} in
+  let s1 := run true ([CMain; CEnvSync; CMain; CMain; CEnvSave b; CMain] ++ repeat CSaver 12 ++ repeat CMain 3)
+                (init [MSave a; MSync] d0) in
+  (exists dk, synclog s1 = [([a], [a], dk, [])] /\ f_conf dk = Some (save_bytes a) /\
+              issued s1 = [a; b] /\ batch s1 = [ISave b]) /\
+  let s2 := run true ([CMain; CEnvSync; CMain; CMain; CEnvSave b; CMain] ++ repeat CSaver 12 ++
+                      [CMain; CMain] ++ repeat CSaver 5 ++ [CMain])
+                (init [MSave a; MSync] d0) in
+  exists dk, synclog s2 = [([a], [a], dk, [b])] /\ f_conf dk = Some (save_bytes b).
+Proof. vm_compute. split; eexists; repeat split. Qed.
